@@ -15,7 +15,10 @@
 (*   mem            in-memory child inodes of the go-fuse Inode tree       *)
 (*                  (n.GetChild): the bridge adds a child after every      *)
 (*                  successful Lookup and drops it on FORGET               *)
-(*   fetched, reported   blob.FetchedSize(), statFile.statJSON.Error       *)
+(*   fetched, reported   blob.FetchedSize(); number of errors reported via  *)
+(*                  state.report (the stat file shows the last one)        *)
+(*   sfheld         a client holds the stat file's inode from an earlier   *)
+(*                  lookup (and may read it without a fresh Getattr)       *)
 (* One action per call (each call is one critical section w.r.t. the       *)
 (* state above; calls are issued one at a time - the orders are what is    *)
 (* enumerated, not concurrency).                                           *)
@@ -35,6 +38,7 @@ CONSTANTS
     Modes,          \* opaque-xattr modes: subset of {"trusted", "user", "all"}
     RootChoices,    \* subset of BOOLEAN: is the directory the layer root or a sub-directory
     MaxFetched,     \* bound on blob.FetchedSize() steps
+    MaxReports,     \* bound on errors reported to the stat file
     StatOnlyEmpty,  \* TRUE: state-file actions only for the empty root (keeps generation graphs small)
     \* ---- guards of the code; each FALSE/other value is a negative control
     RealWins,               \* readdir: whiteout suppressed when a real entry of that name exists
@@ -48,11 +52,11 @@ CONSTANTS
 
 VARIABLES
     isRoot, mode, src,      \* fixed per behaviour (chosen by Init)
-    cached, ents, mem, fetched, reported,
+    cached, ents, mem, fetched, reported, sfheld,
     last                    \* observation: the call just made and its result
 
-core == <<isRoot, mode, src, cached, ents, mem, fetched, reported>>
-vars == <<isRoot, mode, src, cached, ents, mem, fetched, reported, last>>
+core == <<isRoot, mode, src, cached, ents, mem, fetched, reported, sfheld>>
+vars == <<isRoot, mode, src, cached, ents, mem, fetched, reported, sfheld, last>>
 
 KindOf(n) == IF n = "d" THEN "dir" ELSE "reg"
 OwnXattrs == IF isRoot THEN {} ELSE {"user.foo"}     \* the driver gives sub-directories one xattr of their own
@@ -91,7 +95,7 @@ Readdir ==
        ELSE /\ cached' = TRUE
             /\ ents' = IF MemoComplete THEN CodeListing ELSE NormalEnts
             /\ last' = [act |-> "Readdir", list |-> CodeListing]
-    /\ UNCHANGED <<isRoot, mode, src, mem, fetched, reported>>
+    /\ UNCHANGED <<isRoot, mode, src, mem, fetched, reported, sfheld>>
 
 ----------------------------------------------------------------------------
 (* node.Lookup(name), in the order of the tests of the code                 *)
@@ -104,7 +108,7 @@ WhKind(w) == IF WhiteoutAttr THEN "chr" ELSE KindOf(w)
 
 Lookup(n) ==
     /\ n \in LookupU
-    /\ UNCHANGED <<isRoot, mode, src, fetched, reported>>
+    /\ UNCHANGED <<isRoot, mode, src, fetched, reported, sfheld>>
     /\ IF HiddenName(n)
        THEN \* landmarks in "/" and whiteout files themselves are not shown; the whiteout OF such a name is
             IF PrefixedWhiteoutLookup /\ WhOf(n) # Opq /\ WhOf(n) \in Raw
@@ -143,7 +147,7 @@ Forget(n) ==
     /\ n \in DOMAIN mem
     /\ mem' = [x \in DOMAIN mem \ {n} |-> mem[x]]
     /\ last' = [act |-> "Forget", n |-> n]
-    /\ UNCHANGED <<isRoot, mode, src, cached, ents, fetched, reported>>
+    /\ UNCHANGED <<isRoot, mode, src, cached, ents, fetched, reported, sfheld>>
 
 \* Getattr of an in-memory child (node.Getattr / whiteout.Getattr)
 GetattrChild(n) ==
@@ -178,27 +182,40 @@ Listxattr ==
 (* the state directory and its stat file (root only)                        *)
 
 StatScope == isRoot /\ (StatOnlyEmpty => src = {})
+ErrText(n) == IF n = 0 THEN "" ELSE "verif-error-" \o ToString(n)
 
 \* environment: the blob reports a larger fetched size
 Progress ==
     /\ StatScope /\ fetched < MaxFetched
     /\ fetched' = fetched + 1
     /\ last' = [act |-> "Progress"]
-    /\ UNCHANGED <<isRoot, mode, src, cached, ents, mem, reported>>
+    /\ UNCHANGED <<isRoot, mode, src, cached, ents, mem, reported, sfheld>>
 
-\* some operation of the layer failed: fs.s.report(err)
+\* some operation of the layer failed: fs.s.report(err); the stat file shows the last error
 Report ==
-    /\ StatScope /\ ~reported
-    /\ reported' = TRUE
-    /\ last' = [act |-> "Report"]
-    /\ UNCHANGED <<isRoot, mode, src, cached, ents, mem, fetched>>
+    /\ StatScope /\ reported < MaxReports
+    /\ reported' = reported + 1
+    /\ last' = [act |-> "Report", text |-> ErrText(reported + 1)]
+    /\ UNCHANGED <<isRoot, mode, src, cached, ents, mem, fetched, sfheld>>
 
-\* list the state directory, look the stat file up, read and parse it
-StatRead ==
+\* a client lists the state directory and looks the stat file up (state.Lookup -> statFile.attr); it keeps the inode
+StatLookup ==
     /\ StatScope
-    /\ last' = [act |-> "StatRead", errno |-> "OK", json |-> TRUE, fname |-> LayerDigest \o ".json",
-                digest |-> LayerDigest, size |-> BlobSize, fetched |-> fetched, haserr |-> reported,
-                dirino |-> "state", fileino |-> "statfile"]
+    /\ sfheld' = TRUE
+    /\ last' = [act |-> "StatLookup", errno |-> "OK", fname |-> LayerDigest \o ".json", dirino |-> "state", fileino |-> "statfile"]
+    /\ UNCHANGED <<isRoot, mode, src, cached, ents, mem, fetched, reported>>
+
+\* Getattr on the inode held (statFile.Getattr -> attr)
+StatGetattr ==
+    /\ StatScope /\ sfheld
+    /\ last' = [act |-> "StatGetattr", errno |-> "OK", fileino |-> "statfile"]
+    /\ UNCHANGED core
+
+\* Read on the inode held, WITHOUT a fresh lookup or Getattr (statFile.Read): the content is computed at read time
+StatRead ==
+    /\ StatScope /\ sfheld
+    /\ last' = [act |-> "StatRead", errno |-> "OK", json |-> TRUE, digest |-> LayerDigest, size |-> BlobSize,
+                fetched |-> fetched, err |-> ErrText(reported)]
     /\ UNCHANGED core
 
 ----------------------------------------------------------------------------
@@ -209,7 +226,7 @@ Init ==
     /\ mode \in Modes
     /\ src \in Contents
     /\ cached = FALSE /\ ents = {} /\ mem = Empty
-    /\ fetched = 0 /\ reported = FALSE
+    /\ fetched = 0 /\ reported = 0 /\ sfheld = FALSE
     /\ last = [act |-> "Init"]
 
 Next ==
@@ -220,7 +237,7 @@ Next ==
     \/ Getattr
     \/ \E k \in XKeys : Getxattr(k)
     \/ Listxattr
-    \/ Progress \/ Report \/ StatRead
+    \/ Progress \/ Report \/ StatLookup \/ StatGetattr \/ StatRead
 
 Spec == Init /\ [][Next]_vars
 
@@ -257,9 +274,12 @@ GetxattrOK(r, rawnames, m) ==
 ListxattrOK(r, rawnames, m) ==
     r.keys \cap OpaqueKeys = (IF Opq \in rawnames THEN KeysOf(m) ELSE {})
 
-StatOK(r, dg, sz, fe) ==
+\* what is READ from the stat file is valid JSON reporting the digest, the size, the CURRENT fetched size and the
+\* LAST reported error (whenever the inode was looked up)
+StatOK(r, dg, sz, fe, errtext) ==
     /\ r.errno = "OK" /\ r.json
-    /\ r.fname = dg \o ".json" /\ r.digest = dg /\ r.size = sz /\ r.fetched = fe
+    /\ r.digest = dg /\ r.size = sz /\ r.fetched = fe /\ r.err = errtext
+StatNameOK(r, dg) == r.errno = "OK" /\ r.fname = dg \o ".json"
 
 \* ---- the invariants checked on the design
 ListingIsTranslation ==
@@ -280,7 +300,8 @@ OpaqueXattr ==
     /\ last.act = "Getxattr" => GetxattrOK(last, Raw, mode)
     /\ last.act = "Listxattr" => ListxattrOK(last, Raw, mode)
 StateFileJSON ==
-    last.act = "StatRead" => StatOK(last, LayerDigest, BlobSize, fetched)
+    /\ last.act = "StatRead" => StatOK(last, LayerDigest, BlobSize, fetched, ErrText(reported))
+    /\ last.act = "StatLookup" => StatNameOK(last, LayerDigest)
 \* the state directory is served but never listed
 StateDirHidden ==
     /\ StateDir \notin Raw => StateDir \notin NamesOf(CurListing)
